@@ -59,13 +59,15 @@ class Forward:
     def __init__(self, an: Analysis, fa: FuncAnalysis, on_stmt: Optional[Callable] = None,
                  skip_if: Optional[Callable[[ast.If, "Forward"], bool]] = None,
                  track_slots: Optional[Callable[[str], bool]] = None,
-                 call_effects: bool = True):
+                 call_effects: bool = True,
+                 assume: Optional[Callable[[ast.If, "Forward"], Optional[bool]]] = None):
         self.an = an
         self.fa = fa
         self.on_stmt = on_stmt
         self.skip_if = skip_if
         self.track = track_slots or (lambda k: True)
         self.call_effects = call_effects
+        self.assume = assume
         self.sym = Sym(fa.f, fa.cfg, fa.rd, inliner=an.inliner)
         self.st = State()
         self.sym.eager = self.st.locals
@@ -223,6 +225,13 @@ class Forward:
                 self.on_stmt(s, self)
             if self.skip_if is not None and self.skip_if(s, self):
                 return
+            if self.assume is not None:
+                forced = self.assume(s, self)
+                if forced is not None:
+                    self._invalidate_calls(s.test)
+                    self.st.conds.append(self.cmp(s.test, neg=not forced))
+                    self._block(s.body if forced else s.orelse)
+                    return
             self._invalidate_calls(s.test)
             c_t = self.cmp(s.test)
             c_f = self.cmp(s.test, neg=True)
